@@ -1,6 +1,7 @@
 import FrappyProofs.Lemmas.LifecycleGroups
 import FrappyProofs.Lemmas.LifecycleOnce
 import FrappyProofs.Lemmas.LifecycleParams
+import FrappyProofs.Lemmas.LifecycleRestart
 import FrappyProofs.Lemmas.MultiEvent
 import FrappyModel.Generated.C15
 /-
@@ -31,10 +32,17 @@ configuration produces no error; existence of Pinata products / automatic commun
 `bad_attachment_reported_statement` (its second half is `no_half_start`), `writes_before_first_poll_statement` (proved as
 `writes_before_first_poll` under the additional hypothesis `StaticPinatas`), `shutdown_order_statement` (declared instead
 of resolved attachments).
+Added in round 7 (restart = further rounds of `Server.run` on the same `Server` object): `restart_same_configuration`
+(a round of a node without Pinatas hands `srv.module_cfg` to the next round exactly as it was loaded), hence
+`restart_round_like_first` (every round of such a node is the first round: same log, same state — so every theorem of
+this file holds for every round); `restart_rounds_partial` (every configuration: declared modules stay declared by
+name); `restart_rounds_statement` (nodes with Pinatas, whose products are entries of
+`module_cfg` from the second round on) is kept as a statement, with a checked instance.
 -/
 namespace Frappy.Proofs.C15
 open Frappy.Lifecycle Frappy.Spec.C15 Frappy.Proofs.Lifecycle Frappy.Proofs.LifecycleInit Frappy.Proofs.LifecycleWait
   Frappy.Proofs.LifecycleWrites Frappy.Proofs.LifecycleGroups Frappy.Proofs.LifecycleOnce Frappy.Proofs.LifecycleParams
+  Frappy.Proofs.LifecycleRestart
 
 /-- a finite graph on `mods` is acyclic: it has a topological numbering (with numbers up to the number of modules —
 the length of the longest path) -/
@@ -277,7 +285,7 @@ theorem attached_ready (cfg : Cfg) (fuel : Nat) (sched : List Act) (pick : List 
 no `startModule` is ever called -/
 theorem no_half_start (cfg : Cfg) (fuel : Nat) (sched : List Act) (pick : List Name → Nat) :
     NoHalfStart ⟨(run cfg fuel sched pick).st.modules, (run cfg fuel sched pick).st.errors,
-      (run cfg fuel sched pick).log, (run cfg fuel sched pick).st.ioDict, []⟩ := by
+      (run cfg fuel sched pick).log, (run cfg fuel sched pick).st.ioDict, [], []⟩ := by
   intro herr e he
   simp only at herr he
   rw [(run_log cfg fuel sched pick).1] at herr
@@ -296,7 +304,7 @@ def bad_attachment_reported_statement : Prop :=
     let r := run cfg fuel sched pick
     r.st.oof = false →
     (badAttachmentB cfg r.st.ioDict = true → r.st.errors ≠ []) ∧
-    NoHalfStart ⟨r.st.modules, r.st.errors, r.log, r.st.ioDict, []⟩
+    NoHalfStart ⟨r.st.modules, r.st.errors, r.log, r.st.ioDict, [], []⟩
 
 /-- parameter values the configuration gets wrong are "reported as a configuration error instead of a half-started
 node" as well: a declared module with a configured value that is not of the parameter's datatype, or without a value
@@ -652,7 +660,7 @@ theorem comm_failure_writes_made_up :
        Ev.firstpoll "b"] ∧
     WritesBeforeFirstPoll [cfA, cfB] (run cfCfg 20 [] (fun _ => 0)).log ∧
     judge cfCfg ⟨(run cfCfg 20 [] (fun _ => 0)).st.modules, [], (run cfCfg 20 [] (fun _ => 0)).log, [],
-      writtenOf (run cfCfg 20 [] (fun _ => 0)).st (run cfCfg 20 [] (fun _ => 0)).log⟩ = [] := by
+      writtenOf (run cfCfg 20 [] (fun _ => 0)).st (run cfCfg 20 [] (fun _ => 0)).log, []⟩ = [] := by
   decide +kernel
 
 /-- the hypotheses are met by the configuration of the former finding (shared communicator, a communication failure) and
@@ -728,7 +736,7 @@ theorem sample_run_accepted :
     judge sampleCfg ⟨(run sampleCfg 20 [.main, .main, .step "c"] (fun _ => 1)).st.modules, [],
       (run sampleCfg 20 [.main, .main, .step "c"] (fun _ => 1)).log, [],
       writtenOf (run sampleCfg 20 [.main, .main, .step "c"] (fun _ => 1)).st
-        (run sampleCfg 20 [.main, .main, .step "c"] (fun _ => 1)).log⟩ = [] := by
+        (run sampleCfg 20 [.main, .main, .step "c"] (fun _ => 1)).log, []⟩ = [] := by
   decide +kernel
 
 /-- the hypotheses of `init_order_once_of_up` are met by that configuration (Pinata, dynamic module, communicator) -/
@@ -793,6 +801,77 @@ theorem acyclicB_iff (nodes : List Name) (edges : List (Name × Name)) :
     obtain ⟨rank, hr, _⟩ := acyclicB_sound nodes edges h
     exact ⟨rank, hr⟩
   · exact acyclicB_complete nodes edges
+
+/-! ## restart: a further round of `Server.run` on the same `Server` object -/
+
+/-- What a round hands to the next one is `srv.module_cfg`, and a round of a node without Pinatas leaves it exactly as
+`Server.__init__` loaded it — whatever happens in the round (failing hooks, bad attachments, automatic communicators,
+any fuel): the configuration of round `k` is the configuration.  (`module_cfg[modname] = options` in `create_modules`
+writes the entry back that is there; `get_module_instance` works on a copy; nothing else touches it: `Ext.known`.) -/
+theorem restart_same_configuration (cfg : Cfg) (hnp : ∀ c ∈ cfg.mods, c.cls ≠ Cls.pinata)
+    (hnd : (cfg.mods.map (·.name)).Nodup) (k : Nat) : roundCfg cfg k = cfg :=
+  roundCfg_eq cfg hnp hnd k
+
+/-- "a second round must behave like the first", full for nodes without Pinatas: the life of the node in round `k`
+*is* its first life — same module objects, same errors, same event log (hooks, start values, polls, shutdown order)
+under the same schedule and choice function.  So every theorem of this file about `run cfg` is a theorem about every
+round, judged against the configuration that was loaded. -/
+theorem restart_round_like_first (cfg : Cfg) (hnp : ∀ c ∈ cfg.mods, c.cls ≠ Cls.pinata)
+    (hnd : (cfg.mods.map (·.name)).Nodup) (k fuel : Nat) (sched : List Act) (pick : List Name → Nat) :
+    run (roundCfg cfg k) fuel sched pick = run cfg fuel sched pick := by
+  rw [restart_same_configuration cfg hnp hnd k]
+
+/-- in particular the start values of round `k` (instance of `handle_writes_registers_start_values` per round: the
+descriptions the round starts from are the loaded ones, parameter dictionaries included) -/
+theorem restart_start_values_kept (cfg : Cfg) (hnp : ∀ c ∈ cfg.mods, c.cls ≠ Cls.pinata)
+    (hnd : (cfg.mods.map (·.name)).Nodup) (k : Nat) :
+    (roundCfg cfg k).mods.map writeDict = cfg.mods.map writeDict := by
+  rw [restart_same_configuration cfg hnp hnd k]
+
+/-- the general statement, Pinatas included (their products are entries of `module_cfg` from the second round on, and
+the next round finds them as declared modules): every round describes the same modules as the first.  Not proved —
+it needs "a product is appended to `module_cfg` once, under its own name, unchanged" as an invariant of the creation
+loop with the Pinata branch, and the names of products distinct from the declared ones; the evidence is the
+correspondence run (stream `restart`, variant `pin`, 2–3 rounds) and the instance below. -/
+def restart_rounds_statement : Prop :=
+  ∀ (cfg : Cfg) (k : Nat) (io : List (String × Name)),
+    (∀ d ∈ cfg.dyn, d.cls ≠ Cls.pinata) → ((cfg.mods ++ cfg.dyn).map (·.name)).Nodup →
+    ∀ n, n ∈ names (allMods (roundCfg cfg k) io) ↔ n ∈ names (allMods cfg io)
+
+/-- the part of `restart_rounds_statement` that is proved, for **every** configuration (Pinatas, failing hooks, rejected
+modules included) and every round: a declared module is still declared, under its name, in the `module_cfg` the round
+starts from, and what the Pinatas can produce is the same.  Missing for the statement: the description found under the
+name is the loaded one (a product of a Pinata with the name of a declared module whose creation failed replaces it:
+`module_cfg[modname] = options`), and the products are declared once. -/
+theorem restart_rounds_partial (cfg : Cfg) (k : Nat) :
+    (∀ c ∈ cfg.mods, ∃ d ∈ (roundCfg cfg k).mods, d.name = c.name) ∧ (roundCfg cfg k).dyn = cfg.dyn :=
+  ⟨roundCfg_keeps_declared cfg k, roundCfg_dyn cfg k⟩
+
+/-- non-vacuity of `restart_same_configuration` / `restart_round_like_first`: a node with a communicator made from a
+`uri`, used by its creator inside `initModule`, and a module declared first that is attached to the creator -/
+def rTop : ModCfg := { (default : ModCfg) with name := "top", atts := [⟨"a0", some "dev", true, 0⟩], touchInit := ["a0"] }
+def rDev : ModCfg := { (default : ModCfg) with name := "dev", cls := .hasio, poll := true, params := [wp "w0"], uri := some "x://1", atts := [⟨"io", none, false, 0⟩], touchInit := ["io"] }
+def restartCfg0 : Cfg := { mods := [rTop, rDev], dyn := [] }
+
+example : (∀ c ∈ restartCfg0.mods, c.cls ≠ Cls.pinata) ∧ (restartCfg0.mods.map (·.name)).Nodup := by decide
+
+/-- … and on that node the automatically created communicator is initialised when its creator — reached first through
+the attachment of `top` — uses it (the instance of `attached_ready` the seeded change C15-m10 breaks), in round 3 as in
+round 1 -/
+example : (run (roundCfg restartCfg0 2) 20 [] (fun _ => 0)).st.errors = [] ∧
+    (run (roundCfg restartCfg0 2) 20 [] (fun _ => 0)).log.take 7 =
+      [.early "top", .init "top", .early "dev", .init "dev", .early "dev_io", .init "dev_io", .get "dev" "io" "dev_io"] := by
+  rw [restart_round_like_first restartCfg0 (by decide) (by decide)]
+  decide +kernel
+
+/-- instance of `restart_rounds_statement` on the Pinata sample: the second round starts from the loaded descriptions
+plus the product `d0`, describes the same modules, and its life is the life of the first round -/
+example : (roundCfg sampleCfg 1).mods.map (·.name) = ["p", "u", "v", "c", "d0"] ∧
+    (names (allMods (roundCfg sampleCfg 1) [])).all (names (allMods sampleCfg [])).contains = true ∧
+    (names (allMods sampleCfg [])).all (names (allMods (roundCfg sampleCfg 1) [])).contains = true ∧
+    (run (roundCfg sampleCfg 1) 20 [.main, .main, .step "c"] (fun _ => 1)).log =
+      (run sampleCfg 20 [.main, .main, .step "c"] (fun _ => 1)).log := by
+  decide +kernel
 
 /-- constants of the source the harness and the generators rely on (start-up timeout of `_processCfg`, default
 export flags): re-extracted on every run, an edit breaks this proof -/
